@@ -21,7 +21,7 @@ MAX_ALL = 3000
 
 # decoders whose *text* reads, by design, tables keyed by an argument (another thread's id): their rendering is the
 # statement's carve-out, but their existence and event list are still per-thread results
-CROSS_READERS = {'TraceDataThreadTerminate'}
+CROSS_READERS = {'TraceDataThreadTerminate', 'TraceDataThreadTerminatePid'}
 
 
 def trace_key(t):
@@ -45,10 +45,15 @@ def run_stream(items):
 
 def gen_programs(rng, pairs_everywhere):
     nthreads = rng.choice((2, 2, 3, 3, 4))
+    shared_children = rng.random() < 0.5
     programs, tids = [], []
     for t in range(nthreads):
         tid = 10 + t
         keyspace = {'tid': tid, 'pid': 100 * (t + 1), 'sid': 1000 * (t + 1)}
+        if shared_children:
+            # several threads announce / sample the same child thread ids (the tid->pid table is shared by design and
+            # read only by decoders whose text is the carve-out); the pids they name stay disjoint
+            keyspace['child_pool'] = [5001, 5002]
         prog = []
         if pairs_everywhere:
             prog += H.scenario(rng, keyspace, kinds=('newthread', 'exec'))
@@ -70,6 +75,8 @@ def gen_programs(rng, pairs_everywhere):
         if rng.random() < 0.5 and len(programs[t]) < 9:
             other = rng.choice([x for x in all_tids if x != 10 + t])
             rec = rng.choice((H.A('TRACE_DATA_THREAD_TERMINATE', H.NONE, (other, 0, 0, 0)),
+                              H.thd_data(100 * (t + 1), rng.choice((5001, 5002, other))),
+                              H.A('TRACE_DATA_NEWTHREAD', H.NONE, (rng.choice((5001, 5002)), 100 * (t + 1) + 1, 0, 0)),
                               H.A('PERF_THD_CSwitch', H.NONE, (other, 100 * (t + 1), 0, 0)),
                               H.A('MACH_MKRUNNABLE', H.NONE, (other, 31, 0, 1)),
                               H.A('MACH_STKHANDOFF', H.NONE, (0, other, 31, 31))))
